@@ -22,6 +22,11 @@ func Registry() []*Spec {
 		Quick: map[string]int{"N": 3}, Thorough: map[string]int{"N": 4},
 		Covers: []string{"accepted", "rejected"}, UnitDepth: 3, Asserts: []string{"no-panic", "terminates"},
 		Note: "every byte string of length <= N through sen.Parser.Parse and sen.Tokenizer.Parse: no panic; a path over the step budget (400k SSA instructions) is replayed natively under an 8 s limit and reported as non-termination only if it really hangs"})
+	add(Spec{Property: "C06", Name: "VerifC06_JP", Pkg: "asm", HangCheck: true, MaxSteps: 400000,
+		Quick: map[string]int{"N": 4}, Thorough: map[string]int{"N": 5},
+		Covers: []string{"accepted", "rejected"}, UnitDepth: 8, Asserts: []string{"no-panic", "no-runtime-fault", "panic-carries-error", "parse-agrees-with-must", "terminates"},
+		AllowUnsupported: []string{"formatted (fmt) string", "(reflect.Value).", "regexp.Compile", "strconv.FormatFloat of a symbolic float"},
+		Note: "JSONPath / filter text: every byte string of <= N bytes and 27 path and filter skeletons with free symbolic bytes through jp.MustParse (a panic must carry an error, never a runtime fault) and jp.Parse (never panics, agrees with MustParse); an expression that parsed is printed and evaluated with Get, First, Has, Locate on a fixed document without a panic; regular expression literals are outside (regexp is not executed)"})
 	// ---- C03: all front-ends agree, however the input is chunked
 	add(Spec{Property: "C03", Name: "VerifC03_Chunked", Pkg: "asm",
 		Quick: map[string]int{"N": 3}, Thorough: map[string]int{"N": 4, "ALLCOMP": 1},
@@ -31,6 +36,10 @@ func Registry() []*Spec {
 		Quick: map[string]int{}, Thorough: map[string]int{},
 		Covers: []string{"valid", "invalid"}, UnitDepth: 3,
 		Note: "15 JSON skeletons (7..17 bytes: strings, keys, escapes, literals, numbers with fraction and exponent, nesting) with free symbolic bytes at the marked places, delivered whole / byte by byte / split at every position: all JSON front-ends vs oj.Parse, and (on every such input, JSON or SEN-only) sen.Parse vs sen.ParseReader vs sen.Tokenizer{OnlyOne}.Parse/.Load + Builder"})
+	add(Spec{Property: "C03", Name: "VerifC03_Multi", Pkg: "asm",
+		Quick: map[string]int{"N": 3}, Thorough: map[string]int{"N": 4},
+		Covers: []string{"valid", "invalid"}, UnitDepth: 3,
+		Note: "multi-document mode: every byte string of <= N bytes and 12 two/three-document skeletons with free bytes, delivered whole / byte by byte / split at every position: oj.Parser.Parse and ParseReader with func(any) bool, func(any) and chan any, Tokenizer(+Load)+Builder, gen.Parser (callback, channel, reader), Validator(+Reader) for error-ness; the SEN family (Parse/ParseReader callback and channel, Tokenizer, Tokenizer.Load) among themselves; and sen vs oj on strict JSON: same error-ness and, when no error, the same sequence of documents"})
 	// ---- C05: Get returns exactly what the path denotes
 	add(Spec{Property: "C05", Name: "VerifC05_Get", Pkg: "jp",
 		Quick: map[string]int{"B": 5, "STEP": 3}, Thorough: map[string]int{"FULL": 1, "B": 7, "STEP": 4},
